@@ -1,21 +1,22 @@
 (* C11 model, part 2: what INSERT / UPDATE / DELETE / close+reopen / SELECT do to one table
    `t (k BIGINT [PRIMARY KEY], c <TYPE>)` as far as the stored value of column c is concerned.
    Transcribed from the tree with the repairs 60cb117 (row counter restored at open), 16c5acb (detoasted
-   values typed by their column), 1b44555 (UPDATE toasts under the row id) and 170f3f6 (values that look
-   like a TOAST pointer are stored out of line):
+   values typed by their column), 1b44555 (UPDATE toasts under the row id), 170f3f6 (values that look
+   like a TOAST pointer are stored out of line) and cc39952 (such values and TOAST-sized ones leave the
+   cached insert plan to the ordinary path):
      src/database/dml/insert.rs   (row id from the per-Database counter next_row_id, which Database::open sets
                                    behind the largest stored row key; TOAST of Text/Blob values above the
                                    threshold or pointer-like, the pointer stored as a Blob; then the row
                                    insert, which fails on an existing row key)
-     src/database/batch.rs        (insert_cached: a re-executed prepared INSERT stores every value inline)
+     src/database/batch.rs        (insert_cached: a re-executed prepared INSERT stores its values inline; it is
+                                   only taken when no bound value needs TOAST)
      src/database/dml/update.rs   (old TOAST chunks deleted, new chunks written under the row id of the row
                                    key; execute_update_param_only for a re-executed prepared UPDATE .. WHERE pk = ?)
      src/database/dml/delete.rs   (chunks of the deleted row removed)
      src/types/owned_value.rs     (from_record_column: is_toast_pointer decides ToastPointer vs Text/Blob)
      src/database/toast.rs        (detoast_rows: TEXT or BLOB by the type of the column the pointer names)
    The record codec itself (C31) and the scalar conversions are taken as the identity here.
-   Also in this file: the property's own oracle on a history (spec_hist) and the class of the one
-   defect that survives the repairs.  Definitions only. *)
+   Also in this file: the property's own oracle on a history (spec_hist).  Definitions only. *)
 From Coq Require Import ZArith List Bool.
 From TV Require Import Lib.MachInt Gen.Toast Model.Toast Model.Utf8.
 Import ListNotations.
@@ -60,10 +61,9 @@ Record state := mkst {
   ins_cached : bool;       (* the session's prepared INSERT has been executed before *)
   upd_cached : bool;       (* the session's prepared UPDATE has been executed before *)
   dead : bool;             (* process aborted *)
-  fake : bool;             (* a re-executed prepared INSERT has put pointer-like bytes into a record (finding class 4) *)
   gone : list Z            (* row ids of deleted rows: DELETE leaves the row key in the table B-tree (a tombstone) *)
 }.
-Definition st0 : state := mkst 1 [] tempty false false false false [].
+Definition st0 : state := mkst 1 [] tempty false false false [].
 
 Definition COL_C : Z := 1.                        (* column index of c *)
 Definition INLINE_MAX : Z := 16311.               (* largest text/blob insert_cached can put into a leaf cell of this table *)
@@ -114,6 +114,15 @@ Definition put_value (upd : bool) (m : tmap) (row_id : Z) (v : value) : tmap * o
   | None => (m, Some (store_scalar v))
   end.
 
+(* does a bound value have to go through TOAST?  (execute_with_cached_plan: Text above the threshold, Blob above
+   the threshold or pointer-like) *)
+Definition wants_toast (v : value) : bool :=
+  match v with
+  | VText b => needs_toast b
+  | VBlob b => needs_toast b || is_toast_pointer b
+  | _ => false
+  end.
+
 (* insert_cached (a re-executed prepared INSERT): no TOAST; a record that does not fit a leaf cell is refused *)
 Definition put_value_cached (m : tmap) (v : value) : tmap * option stored :=
   match var_bytes v with
@@ -122,24 +131,24 @@ Definition put_value_cached (m : tmap) (v : value) : tmap * option stored :=
   end.
 
 Definition step_ins (st : state) (p : path) (k : Z) (v : value) : state * sobs :=
-  let cached := match p with PS => ins_cached st | _ => false end in
+  (* execute_with_cached_plan (cc39952): the cached plan is skipped when a bound value wants TOAST *)
+  let cached := (match p with PS => ins_cached st | _ => false end) && negb (wants_toast v) in
   let ic := match p with PS => true | _ => ins_cached st end in
   let rid := next_rid st in
   let ms := if cached then put_value_cached (toast st) v else put_value false (toast st) rid v in
-  let fk := fake st || (cached && match var_bytes v with Some b => is_toast_pointer b | None => false end) in
   match snd ms with
-  | None => (mkst (rid + 1) (rows st) (fst ms) ic (upd_cached st) (dead st) fk (gone st), SWrote false)
+  | None => (mkst (rid + 1) (rows st) (fst ms) ic (upd_cached st) (dead st) (gone st), SWrote false)
   | Some s =>
       (* the row insert: BTree::insert fails on an existing row key (live or tombstone) *)
       if has_rid rid (rows st) || existsb (Z.eqb rid) (gone st)
-      then (mkst (rid + 1) (rows st) (fst ms) ic (upd_cached st) (dead st) fk (gone st), SWrote false)
-      else (mkst (rid + 1) (ins_row (mkrow rid k s) (rows st)) (fst ms) ic (upd_cached st) (dead st) fk (gone st), SWrote true)
+      then (mkst (rid + 1) (rows st) (fst ms) ic (upd_cached st) (dead st) (gone st), SWrote false)
+      else (mkst (rid + 1) (ins_row (mkrow rid k s) (rows st)) (fst ms) ic (upd_cached st) (dead st) (gone st), SWrote true)
   end.
 
 Definition step_upd (pk : bool) (st : state) (p : path) (k : Z) (v : value) : state * sobs :=
   let cached := match p with PS => upd_cached st | _ => false end in
   let uc := match p with PS => true | _ => upd_cached st end in
-  let st1 := mkst (next_rid st) (rows st) (toast st) (ins_cached st) uc (dead st) (fake st) (gone st) in
+  let st1 := mkst (next_rid st) (rows st) (toast st) (ins_cached st) uc (dead st) (gone st) in
   match find_k k (rows st) with
   | None => (st1, SWrote true)                                         (* 0 rows affected *)
   | Some r =>
@@ -149,8 +158,8 @@ Definition step_upd (pk : bool) (st : state) (p : path) (k : Z) (v : value) : st
         let m1 := drop_old (toast st) (r_st r) in
         let ms := put_value true m1 (r_rid r) v in
         match snd ms with
-        | Some s => (mkst (next_rid st) (set_row k s (rows st)) (fst ms) (ins_cached st) uc (dead st) (fake st) (gone st), SWrote true)
-        | None => (mkst (next_rid st) (rows st) (fst ms) (ins_cached st) uc (dead st) (fake st) (gone st), SWrote false)
+        | Some s => (mkst (next_rid st) (set_row k s (rows st)) (fst ms) (ins_cached st) uc (dead st) (gone st), SWrote true)
+        | None => (mkst (next_rid st) (rows st) (fst ms) (ins_cached st) uc (dead st) (gone st), SWrote false)
         end
   end.
 
@@ -158,7 +167,7 @@ Definition step_del (st : state) (k : Z) : state * sobs :=
   match find_k k (rows st) with
   | None => (st, SWrote true)
   | Some r => (mkst (next_rid st) (del_row k (rows st)) (drop_old (toast st) (r_st r))
-                    (ins_cached st) (upd_cached st) (dead st) (fake st) (r_rid r :: gone st), SWrote true)
+                    (ins_cached st) (upd_cached st) (dead st) (r_rid r :: gone st), SWrote true)
   end.
 
 (* ---- SELECT: from_record_column, then detoast_rows *)
@@ -208,7 +217,7 @@ Definition step_query (ty : colty) (st : state) : state * sobs :=
   | Some r => (st, SRows r)
   | None =>
       if existsb is_unknown l then (st, SWeird)
-      else if existsb is_abort l then (mkst (next_rid st) (rows st) (toast st) (ins_cached st) (upd_cached st) true (fake st) (gone st), SQueryAbort)
+      else if existsb is_abort l then (mkst (next_rid st) (rows st) (toast st) (ins_cached st) (upd_cached st) true (gone st), SQueryAbort)
       else if existsb is_panic l then (st, SQueryPanic)
       else (st, SQueryErr)
   end.
@@ -217,7 +226,7 @@ Definition step_query (ty : colty) (st : state) : state * sobs :=
    stored in the table B-tree - live rows and the tombstones of deleted ones *)
 Definition max_rid (st : state) : Z := fold_left Z.max (map r_rid (rows st) ++ gone st) 0.
 Definition step_reopen (st : state) : state * sobs :=
-  (mkst (Z.max 1 (max_rid st + 1)) (rows st) (toast st) false false (dead st) (fake st) (gone st), SReopened true).
+  (mkst (Z.max 1 (max_rid st + 1)) (rows st) (toast st) false false (dead st) (gone st), SReopened true).
 
 Definition step (ty : colty) (pk : bool) (st : state) (o : op) : state * sobs :=
   if dead st then (st, SNotRun) else
@@ -298,11 +307,6 @@ Fixpoint spec_from (e : list (Z * value)) (steps : list (op * sobs)) : bool :=
   end.
 Definition spec_hist (ops : list op) (obs : list sobs) : bool :=
   (length ops =? length obs)%nat && spec_from [] (combine ops obs).
-
-(* ================================================================ the finding class that survives the repairs *)
-(* class 4: a 17-byte 0xFE-led value written by a re-executed prepared INSERT (insert_cached does not TOAST) *)
-Definition hist_class (ty : colty) (pk : bool) (ops : list op) : Z :=
-  if fake (final ty pk ops) then 4 else 0.
 
 (* ================================================================ histories the theorem speaks about *)
 Definition val_ok (ty : colty) (v : value) : bool :=
